@@ -87,7 +87,9 @@ def case_to_mm(case: Dict[str, Any]) -> Dict[str, Any]:
             else:
                 items.append({"kind": "cprim", "name": names[c - 1], "base": "str", "invs": invs})
             continue
-        wmt = {"none": None, "true": True, "false": False}[h["wmt"][c - 1]]
+        wmt = {"none": None, "true": True, "false": False, "bare": None}[h["wmt"][c - 1]]
+        # the decorator without the argument is written out (mm.py renders only with_model_type=True/False)
+        decorators = ["@serialization()"] if h["wmt"][c - 1] == "bare" else []
         invs = [{"expr": "True", "desc": d} for d in h["invs"][c - 1]]
         methods = ["    @implementation_specific\n    def %s(self) -> int:\n        pass\n" % m for m in h["methods"][c - 1]]
         items.append(
@@ -97,6 +99,7 @@ def case_to_mm(case: Dict[str, Any]) -> Dict[str, Any]:
                 "bases": bases,
                 "abstract": bool(h["abstract"][c - 1]),
                 "wmt": wmt,
+                "decorators": decorators,
                 "props": [{"name": p, "type": prop_type(p)} for p in h["props"][c - 1]],
                 "invs": invs,
                 "methods": methods,
@@ -189,9 +192,10 @@ def extract_hierarchy(text: str) -> Tuple[Dict[str, Any], List[str]]:
         invs: List[str] = []
         for d in node.decorator_list:
             if isinstance(d, ast.Call) and _decorator_name(d) == "serialization":
+                wmt = "bare"
                 for kw in d.keywords:
                     if kw.arg == "with_model_type" and isinstance(kw.value, ast.Constant):
-                        wmt = "true" if kw.value.value is True else ("false" if kw.value.value is False else "none")
+                        wmt = "true" if kw.value.value is True else ("false" if kw.value.value is False else "bare")
             if isinstance(d, ast.Call) and _decorator_name(d) == "invariant":
                 desc = None
                 if len(d.args) >= 2:
